@@ -29,7 +29,7 @@ OBLIGATIONS += [
     Obl(name="cell_string", module="h_typed", func="cell_string", shadow=True, timeout=120, replay="r_h_typed:cell_string", weight=5,
         bounds="str values of <= 4 characters in U+0020..U+D7FF or LF (the words true and false included)", encodes=_ENC[:2], stubs=_STUB[:1]),
     Obl(name="cell_simple", module="h_typed", func="cell_simple", shadow=True, timeout=120, replay="r_h_typed:cell_simple", weight=5,
-        bounds="both booleans (symbolic); ints 0, -3, 12, 10**20, Decimal('1.50'), 2.5, None (concrete)", encodes=_ENC[:2], stubs=_STUB[:1]),
+        bounds="both booleans (symbolic); ints 0, -3, 12, 10**20, 10**30, -2**100, Decimal('1.50'), 2.5, None (concrete)", encodes=_ENC[:2], stubs=_STUB[:1]),
 ]
 
 _CENC = _ENC[:1] + ["src/odfdo/variable.py:VarSet,VarGet,UserFieldDecl,UserFieldGet,UserDefined (__init__, set_value)",
@@ -45,7 +45,7 @@ for _c in ("varset", "varget", "userfielddecl", "userfieldget", "userdefined"):
                            bounds=f"{_c} holding a str of <= 4 characters in U+0020..U+D7FF", encodes=_CENC, stubs=_STUB[:1]))
     OBLIGATIONS.append(Obl(name=f"carrier_simple_{_c}", module="h_typed", func="carrier_simple", shadow=True, timeout=120, env={"VERIF_CARRIER": _c},
                            extra={"carrier": _c}, replay="r_h_typed:carrier_simple", weight=4,
-                           bounds=f"{_c} holding either boolean (symbolic), ints 0, -3, 12, 10**20, Decimal('1.50'), None (concrete)", encodes=_CENC, stubs=_STUB[:1]))
+                           bounds=f"{_c} holding either boolean (symbolic), ints 0, -3, 12, 10**20, 10**30, -2**100, Decimal('1.50'), None (concrete)", encodes=_CENC, stubs=_STUB[:1]))
 
 # thorough tier: the same obligations with longer strings (VERIF_DEPTH: +1 / +2 characters)
 import copy as _copy  # noqa: E402
